@@ -9,6 +9,43 @@ NOTE = ("Trusted: Coq 8.16.1 kernel + vm_compute; tools/gen_consts.py; the Rust 
 TECH = "machine-checked proof in Coq (Rocq) over a Gallina model + differential correspondence check against the Rust code"
 
 CLAIMED = {
+    "C08": {
+        "text": "Theorems (props/C08.v) over the Gallina model of node.rs/bucket.rs/table.rs. c08_inv_all_histories: the shape invariant "
+                "TInv holds after EVERY history of offers (responder/hearsay), whole responses, queries sent and received at arbitrary "
+                "times, for every local id and router set - proved through the mutual recursion add_node/bucket_node/split_bucket for "
+                "every fuel; c08_live_shape: what TInv says at any instant (1..160 buckets of 8 slots; no live node with the own id or a "
+                "router address; every live node in the bucket of its shared-prefix length; no (id,address) live twice). Bucket "
+                "transition laws for every bucket/time/offer: at most one slot changes; a live node only leaves if the bucket has no "
+                "bad/empty slot and it is strictly worse than the newcomer; a full bucket of good nodes rejects; room or a worse node "
+                "admits; a repeated offer updates in place and never lowers the standing. c08_pinned_refuted: the pre-fix add_node "
+                "loses a questionable node next to 7 empty slots (the genuine defect repaired in /repo commit a9da3a6). Tie: 8/160/15 "
+                "min/2 read from the source; slot-by-slot differential runs of the real RoutingTable (deep split chains, every prefix "
+                "depth, routers, own id, repeats) under the virtual clock; c08_ok (shape + all transition clauses at table level, "
+                "including across splits) evaluated in Coq on the real dumps; failing scripts are shrunk.",
+        "ref": "7/C08", "axioms": "none",
+        "note_extra": "Table-level transition clauses across a bucket split are proved at bucket level and validated (not proved) at table level by c08_ok on every run. Offered addresses are assumed != 127.0.0.1:0 (empty-slot placeholder).",
+    },
+    "C09": {
+        "text": "c09_walk_perm: for every start index 0..160 (the whole domain) the alternating bucket walk visits each index < 160 exactly "
+                "once (finite sweep by vm_compute lifted with forallb_forall). c09_enumeration_perm: for every table satisfying the C08 "
+                "invariant, every target and every instant, closest_nodes is a permutation of the live nodes (each exactly once); "
+                "c09_enumeration_all_histories: hence on every table reachable by any operation history. Tie: the real iterator's exact "
+                "output order is compared with the model on tables built by long random histories (1..150+ buckets) for targets = local "
+                "id, single-bit flips, known ids, random; c09_ok on the real dumps also checks that nodes sharing a longer prefix with "
+                "the target than the local id come first. The take-8-per-family clause is part of the handler model (C05).",
+        "ref": "7/C09", "axioms": "none", "note_extra": "",
+    },
+    "C10": {
+        "text": "Theorems (props/C10.v) over per-contact event histories (answer, hearsay mention, query received, query sent; any "
+                "interleaving, non-decreasing times): closed form of the classification; reported good only if it answered or - being "
+                "known - queried in the last 15 minutes (so idle for 15 min => not good); an accepted answer makes it good immediately; "
+                "hearsay-only contacts are questionable; not good + two consecutive unanswered queries => bad (unreported, not found "
+                "by find_node_mut) for as long as it neither answers nor is named again. Tie: 15 min / 2 from the source; differential "
+                "runs of the real RoutingTable (statuses in dumps/contacts) and c10_ok recomputing the clauses from the event history "
+                "alone. KNOWN FINDING F-C10 (listed in known_findings.json, witnessed by c10_renamed_after_bad_refuted and reproduced "
+                "on the real table every run): a hearsay mention re-admits a contact that went bad before it answers again.",
+        "ref": "7/C10", "axioms": "none", "note_extra": "",
+    },
     "C06": {
         "text": "Theorems (props/C06.v) over the Gallina model of TokenStore, for every history pre ++ issue :: mid ++ presentation :: post "
                 "with arbitrary pre/mid/post (any interleaving of issues and presentations from any IPv4/IPv6 addresses) and non-decreasing "
